@@ -132,7 +132,11 @@ func applyMut(typ string, p val.V, m Mut) (val.V, string, bool) {
 	}
 	switch m.Kind {
 	case "unknown-field":
-		out.M = append(out.M, val.KV{K: []string{"zzz", "Iss", "iss ", "fct", "ucv"}[m.N%5], V: retypes[m.N%len(retypes)]})
+		name := []string{"zzz", "Iss", "iss ", "fct", "ucv"}[m.N%5]
+		if _, dup := out.Get(name); dup {
+			return p, "", false
+		}
+		out.M = append(out.M, val.KV{K: name, V: retypes[m.N%len(retypes)]})
 		return out, "reject", true
 	}
 	if !known {
